@@ -149,8 +149,8 @@ class LongGen:
             "GREATERTHANOREQUAL", "MIN", "MAX"]
     HASH = ["RIPEMD160", "SHA1", "SHA256", "HASH160", "HASH256"]
 
-    def __init__(self, rng, z=False, risk=0.01, minimal=True):
-        self.r = rng; self.z = z; self.risk = risk; self.minimal = minimal
+    def __init__(self, rng, z=False, risk=0.01, minimal=True, avoid=()):
+        self.r = rng; self.z = z; self.risk = risk; self.minimal = minimal; self.avoid = set(avoid)
         self.out = bytearray(); self.st = []; self.alt = 0; self.nops = 0
 
     def emit(self, b): self.out += b
@@ -210,7 +210,7 @@ class LongGen:
         r = self.r; c = r.random()
         if c < self.risk:
             # a risky random opcode (may fail: that ends the script's interesting part)
-            o = r.choice([x for x in range(0x4f, 0xbb) if x not in SIGOPS])
+            o = r.choice([x for x in range(0x4f, 0xbb) if x not in SIGOPS and x not in self.avoid])
             self.emit(bytes([o])); self.nops += 1
             return
         if c < 0.18: self.pushnum(); return
@@ -270,11 +270,12 @@ class LongGen:
         return bytes(self.out)
 
 
-def long_scripts(rng, n, sigvers=("BASE", "WITNESS_V0", "TAPSCRIPT")):
+def long_scripts(rng, n, sigvers=("BASE", "WITNESS_V0", "TAPSCRIPT"), opsuccess=False):
     for i in range(n):
         sv = sigvers[i % len(sigvers)]
         target = rng.choice([30, 60, 120, 190]) if sv != "TAPSCRIPT" else rng.choice([50, 150, 400])
-        g = LongGen(rng, z=False, risk=rng.choice([0.0, 0.004, 0.02]), minimal=rng.random() < 0.8)
+        g = LongGen(rng, z=False, risk=rng.choice([0.0, 0.004, 0.02]), minimal=rng.random() < 0.8,
+                    avoid=() if (opsuccess or sv != "TAPSCRIPT") else OPSUCCESS)
         yield sv, g.generate(target)
 
 
